@@ -98,4 +98,50 @@ def FileDest.line (d : FileDest) (m : PyVal) : Option (List Nat) :=
   | .ok p => some (p ++ [10])
   | .error _ => none
 
+/-! ## Crash layer (C11): what is on disk when the process dies
+
+`write()` puts the line into a user-space buffer, the buffer reaches the disk (the kernel) in chunks
+of any size at any time after that, `flush()` returns only when the buffer is empty, then the logging
+call returns (= the message is acknowledged).  A crash (SIGKILL) keeps `disk` only. -/
+
+structure FS where
+  disk : List Nat := []
+  buf : List Nat := []
+  acked : Nat := 0
+deriving Repr
+
+inductive Step where
+  | append (line : List Nat)     -- `file.write(line)`
+  | spill (n : Nat)              -- the OS takes the first `n` buffered bytes (a chunk of a large write, a partial flush)
+  | spillAll                     -- `file.flush()` completes
+  | ack                          -- the logging call returns
+deriving Repr
+
+def Step.run (s : FS) : Step → FS
+  | .append l => { s with buf := s.buf ++ l }
+  | .spill n => { s with disk := s.disk ++ s.buf.take n, buf := s.buf.drop n }
+  | .spillAll => { s with disk := s.disk ++ s.buf, buf := [] }
+  | .ack => { s with acked := s.acked + 1 }
+
+def runSteps (s : FS) (steps : List Step) : FS := steps.foldl Step.run s
+
+/-- micro-steps of one logging call whose line is `l`, with chunking `cs` chosen by the OS / the buffer -/
+def callSteps (l : List Nat) (cs : List Nat) : List Step :=
+  .append l :: (cs.map Step.spill ++ [.spillAll, .ack])
+
+/-- micro-steps of a whole run: `css` gives a chunking per call (missing ones: no early chunk) -/
+def logAll : List (List Nat) → List (List Nat) → List Step
+  | [], _ => []
+  | l :: ls, css => callSteps l (css.headD []) ++ logAll ls css.tail
+
+/-- state at the moment of a crash after `k` micro-steps -/
+def crash (k : Nat) (steps : List Step) : FS := runSteps {} (steps.take k)
+
+/-- the reader: split on newline, drop the unterminated tail (lines are returned without newline) -/
+def readLinesAux : List Nat → List Nat → List (List Nat)
+  | [], _ => []
+  | c :: r, cur => if c = 10 then cur :: readLinesAux r [] else readLinesAux r (cur ++ [c])
+
+def readLines (s : List Nat) : List (List Nat) := readLinesAux s []
+
 end EJ
